@@ -39,10 +39,12 @@ type genTx struct {
 	price, tip *big.Int
 	stake  *stakePre
 	plan   *destroyPlan
+	deploy bool // carries MsgDeployErc20ContractRequest
 }
 
 var mixedKinds = []string{"transfer", "transfer-fresh", "call-sink", "call-revert", "call-invalid", "call-logger", "store-set", "store-clear",
-	"create-ok", "create-ok", "create-fail", "clock", "multi-touch", "cpc-delegate", "cpc-withdraw", "cpc-erc20", "cosmos-send", "cosmos-delegate"}
+	"create-ok", "create-ok", "create-fail", "clock", "multi-touch", "cpc-delegate", "cpc-withdraw", "cpc-erc20", "cosmos-send", "cosmos-delegate",
+	"cpc-new-erc20", "create-calls-cpc"}
 
 var malKinds = []string{"price-below-floor", "stale-nonce", "future-nonce", "wrong-chain-id", "gas-below-intrinsic", "value-above-balance"}
 
@@ -137,6 +139,14 @@ func (w *world) stakingPack(name string, args ...interface{}) []byte {
 
 // genMixed draws one transaction of a random kind, possibly malformed. nil = no sender left for this block.
 func (w *world) genMixed(r *Rng) *genTx {
+	kind := mixedKinds[r.Intn(len(mixedKinds))]
+	if kind == "cpc-new-erc20" {
+		if len(w.newCpcs) == 0 {
+			kind = "cpc-erc20"
+		} else {
+			return w.genFreshCall(r, w.newCpcs[r.Intn(len(w.newCpcs))], kind)
+		}
+	}
 	sender := w.pickSender(r)
 	if sender == nil {
 		return nil
@@ -144,7 +154,6 @@ func (w *world) genMixed(r *Rng) *genTx {
 	c := w.lead
 	q := c.QueryCtx()
 	from := sender.GetEthAddress()
-	kind := mixedKinds[r.Intn(len(mixedKinds))]
 	mal := "none"
 	if r.Chance(22) {
 		mal = malKinds[r.Intn(len(malKinds))]
@@ -211,6 +220,17 @@ func (w *world) genMixed(r *Rng) *genTx {
 		value = big.NewInt(int64(r.Intn(50)))
 	case "create-fail":
 		data, gasExec = []byte{0xfe}, 40000
+	case "create-calls-cpc":
+		// the constructor calls a custom precompiled contract and installs its answer as code
+		tg := w.erc20Cpc
+		if n := len(w.newCpcs); n > 0 && r.Bool() {
+			tg = w.newCpcs[n-1]
+		}
+		op := OpSTATICCALL
+		if r.Bool() {
+			op = OpCALL
+		}
+		data, gasExec = BuildInitProbe(op, tg, w.erc20Pack("symbol")), 120000
 	case "clock":
 		to, gasExec = &w.clock, 50000
 	case "multi-touch":
